@@ -399,8 +399,93 @@ def w_hash(cfg, tier='quick'):
     return col.result()
 
 
+def fingerprint(cfg):
+    """Everything C02 speaks about, of a code built NOW in this process (after whatever ran before)."""
+    import hashlib
+    code = common.make_code(cfg)
+    H = code.stabilizer_matrix
+    parts = [list(map(tuple, code.qubit_coordinates)), list(map(tuple, code.stabilizer_coordinates)),
+             sorted((tuple(k), v) for k, v in code.qubit_index.items()),
+             sorted((tuple(k), v) for k, v in code.stabilizer_index.items()),
+             gf2.rows_of(H), gf2.rows_of(code.logicals_x), gf2.rows_of(code.logicals_z),
+             [sorted((tuple(q), p_) for q, p_ in code.get_stabilizer(loc).items()) for loc in code.stabilizer_coordinates],
+             bool(code.is_css)]
+    if code.is_css:
+        parts += [np.asarray(code.x_indices).astype(int).tolist(), np.asarray(code.z_indices).astype(int).tolist(),
+                  gf2.rows_of(code.Hx), gf2.rows_of(code.Hz)]
+    return hashlib.sha256(repr(parts).encode()).hexdigest()
+
+
+def use_fully(cfg):
+    code = common.make_code(cfg)
+    code.stabilizer_matrix, code.logicals_x, code.logicals_z, code.k, code.d
+    if code.is_css:
+        code.Hx, code.Hz
+    for loc in code.stabilizer_coordinates:
+        code.get_stabilizer(loc)
+    e = np.zeros(2 * code.n, dtype=np.uint8)
+    e[0] = 1
+    code.measure_syndrome(e), code.logical_errors(e)
+
+
+def second_pool(tier):
+    """Candidate configurations: per class the two smallest sizes, undeformed and with the last offered
+    deformation (incl. a non-default axis)."""
+    out = []
+    for cls in common.CLASSES:
+        szs = common.sizes(cls, 'quick')[:2] if tier == 'quick' else common.sizes(cls, 'quick')
+        defs = common.deformations(cls)
+        for s_ in szs:
+            if len(getattr(__import__('panqec.codes', fromlist=[cls]), cls)(*s_).qubit_coordinates) > 120:
+                continue
+            out.append(common.cfg_name(cls, s_))
+            if len(defs) > 1:
+                out.append(common.cfg_name(cls, s_, *defs[-1]))
+    return out
+
+
+def w_second(cfg, tier='quick'):
+    """cfg = 'second <B>': other code objects are built and used first in the same process -- which ones is
+    chosen by the solver (realised): any configuration of the same class, or of any class with the same
+    size tuple -- then <B> is built; everything C02 speaks about must equal what a fresh process builds."""
+    B = cfg.split(' ', 1)[1]
+    col = hz.Collector(cfg)
+    clsB, sizeB, _, _ = common.parse_cfg(B)
+    pool = [c for c in second_pool(tier) if c != B and
+            (common.parse_cfg(c)[0] == clsB or common.parse_cfg(c)[1] == sizeB)]
+    fresh = hz.in_forked_child(lambda: fingerprint(B))
+    eng = Engine(name=cfg, max_paths=5000)
+    with eng:
+        ia = eng.integer('first', 0, len(pool) - 1)
+
+        def fn():
+            A = pool[int(ia)]
+
+            def history():
+                use_fully(A)
+                return fingerprint(B)
+            return A, hz.in_forked_child(history)
+        ps = eng.explore(fn) if pool else []
+    col.absorb(eng)
+    bad, w = [], [None]
+    for p in ps:
+        if p.exc is not None:
+            bad.append(z3_and(p.pc))
+            w[0] = w[0] or dict(second=True, exception=f'{type(p.exc).__name__}: {p.exc}')
+            continue
+        A, fp = p.value
+        bad.append(z3_and(p.pc + [z3.BoolVal(fp != fresh)]))
+        if fp != fresh and (w[0] is None or 'first' not in w[0]):
+            w[0] = dict(second=True, first=A)
+    col.prove('C02/object-built-after-other-objects-equals-the-fresh-process-object', eng.base,
+              z3_or(bad) if bad else z3.BoolVal(False), lambda m: w[0],
+              f'{len(ps)} realised histories (another code of the same class or of the same size built and used '
+              f'first), one forked process each; coordinates, index maps, H, logicals, get_stabilizer, masks, Hx/Hz')
+    return col.result()
+
+
 def worker(cfg, tier='quick'):
-    return {'rows': w_rows, 'bsf': w_bsf, 'user': w_user, 'hash': w_hash}[cfg.split()[0]](cfg, tier)
+    return {'rows': w_rows, 'bsf': w_bsf, 'user': w_user, 'hash': w_hash, 'second': w_second}[cfg.split()[0]](cfg, tier)
 
 
 def replay(path):
@@ -410,7 +495,18 @@ def replay(path):
     kind = cfg.split()[0]
     bad = False
     try:
-        if kind == 'rows':
+        if w.get('second'):
+            B = cfg.split(' ', 1)[1]
+            if 'first' in w:
+                fresh = hz.in_forked_child(lambda: fingerprint(B))
+                use_fully(w['first'])
+                bad = fingerprint(B) != fresh
+                print('built and used first:', w['first'], '-> second object differs from the fresh one:', bad)
+            else:
+                print(w.get('exception'))
+                res = worker(cfg)
+                bad = any(o['oid'] == oid and o['verdict'] == 'sat' for o in res['obs'])
+        elif kind == 'rows':
             code = common.make_code(cfg.split(' ', 1)[1])
             n = code.n
             H = code.stabilizer_matrix.toarray()
@@ -521,6 +617,7 @@ def configs(tier):
         d = common.deformations(cls)[-1]
         hs.append(common.cfg_name(cls, s, *d))
     out += [f'hash {c}' for c in hs]
+    out += [f'second {c}' for c in second_pool(tier)]
     return out
 
 
